@@ -1,6 +1,7 @@
 package main
 
 import (
+	"bytes"
 	"encoding/binary"
 	"encoding/json"
 	"fmt"
@@ -637,6 +638,16 @@ func genPrograms(prop, out, tier string, rng *rand.Rand) {
 		}
 		RunTasks(sink, dtasks, progNontrivial)
 	}
+	if prop == "C01" || prop == "C17" {
+		// directed: keys, qualifiers and values whose lengths sit on both sides of the sizes at which length
+		// prefixes grow (127 / 128 / 129, 300, 16383 / 16384, 20000 bytes): written, read back whole and by
+		// key, partly deleted, read again - on every engine (the leveldb engines serialise rows)
+		var dtasks []Task
+		for _, en := range engines() {
+			dtasks = append(dtasks, Task{en, "long-fields", longFieldProgram()})
+		}
+		RunTasks(sink, dtasks, progNontrivial)
+	}
 	if prop == "C05" {
 		// exhaustive: every leaf of a basis alone (with its boundary arguments), every chain, interleave
 		// and condition of two / three basis leaves, and every chain(interleave(a, b), c) with an
@@ -911,4 +922,36 @@ func c16RulePrograms() [][]Call {
 			at(1, "1h"), at(3, "3h"), at(5, "5h"), at(7, "7h"), at(2, "2h-edge"), at(6, "6h-edge"), gcNow, rd})
 	}
 	return progs
+}
+
+// longFieldProgram: see the directed block "long-fields"
+func longFieldProgram() []Call {
+	t := tname(parentA, "t1")
+	rep := func(c byte, n int) []byte { return bytes.Repeat([]byte{c}, n) }
+	prog := []Call{{Req: Req{Kind: "create", Parent: parentA, Tid: "t1", Fams: []FamDef{{Name: "cf"}, {Name: "cf2"}}}, Now: 1000}}
+	rd := Call{Req: Req{Kind: "read", Table: t}, Now: 1000}
+	var keys [][]byte
+	for i, n := range []int{127, 128, 129, 300} {
+		k := append([]byte{byte('k' + i)}, rep('x', n-1)...)
+		keys = append(keys, k)
+		var ms []Mutation
+		for j, qn := range []int{0, 127, 128, 300} {
+			ms = append(ms, Mutation{Kind: "set", Fam: "cf", Q: rep(byte('a'+j), qn), Ts: 1000, V: rep(byte('0'+i), []int{127, 128, 129, 16383}[j])})
+		}
+		ms = append(ms, Mutation{Kind: "set", Fam: "cf2", Q: []byte("big"), Ts: 2000, V: rep('B', []int{16384, 20000, 255, 256}[i])})
+		prog = append(prog, Call{Req: Req{Kind: "mutate", Table: t, Key: k, Muts: ms}, Now: 1000})
+	}
+	prog = append(prog, rd)
+	for _, k := range keys {
+		prog = append(prog, Call{Req: Req{Kind: "read", Table: t, Keys: [][]byte{k}}, Now: 1000})
+	}
+	prog = append(prog,
+		Call{Req: Req{Kind: "mutate", Table: t, Key: keys[1], Muts: []Mutation{{Kind: "delcol", Fam: "cf", Q: rep('c', 128)}}}, Now: 1000},
+		Call{Req: Req{Kind: "mutate", Table: t, Key: keys[2], Muts: []Mutation{{Kind: "delfam", Fam: "cf2"}}}, Now: 1000},
+		Call{Req: Req{Kind: "mutate", Table: t, Key: keys[3], Muts: []Mutation{{Kind: "delrow"}}}, Now: 1000},
+		Call{Req: Req{Kind: "rmw", Table: t, Key: keys[0], Rules: []Rule{{Kind: "append", Fam: "cf", Q: rep('b', 127), V: rep('+', 200)}}}, Now: 3000},
+		rd,
+		Call{Req: Req{Kind: "drop", Table: t, HasPfx: true, Prefix: keys[1]}, Now: 1000}, rd,
+		Call{Req: Req{Kind: "sample", Table: t}, Now: 1000})
+	return prog
 }
